@@ -91,7 +91,7 @@ func fault(cs Case32, fired *bool, rtype *int) tlsh.Filter {
 		if dir != cs.Dir || idx != cs.Idx || *fired {
 			return nil
 		}
-		if cs.Kind == "shorten" || cs.Kind == "lengthen" {
+		if cs.Kind == "shorten" || cs.Kind == "lengthen" || cs.Kind == "zeros" {
 			// message-level corruption with consistent framing: only possible on cleartext
 			// handshake records (one message per record, as zcrypto writes them)
 			if rec[0] != tlsh.RecHandshake || seenCCS[dir] || len(rec) < 9 ||
@@ -141,9 +141,17 @@ func fault(cs Case32, fired *bool, rtype *int) tlsh.Filter {
 			}
 			cut := 1 + (n-5-1)*(cs.Pos%5)/5
 			return &tlsh.Action{Deliver: [][]byte{record(rec[0], ver, rec[5:5+cut]), record(rec[0], ver, rec[5+cut:])}}
-		case "shorten", "lengthen":
+		case "shorten", "lengthen", "zeros":
 			body := rec[9:]
-			if cs.Kind == "shorten" {
+			if cs.Kind == "zeros" { // empty vectors / null fields: the body becomes k zero bytes
+				k := []int{1, 2, 3, 4, 8, len(body)}[cs.Pos%6]
+				z := make([]byte, k)
+				if string(z) == string(body) { // already all zero (e.g. the empty ServerHelloDone)
+					*fired = false
+					return nil
+				}
+				body = z
+			} else if cs.Kind == "shorten" {
 				k := []int{0, 1, 2, 3, len(body) / 2, len(body) - 1}[cs.Pos%6]
 				if k < 0 {
 					k = 0
@@ -413,7 +421,7 @@ func randomCase(r *rand.Rand, id int) Case32 {
 	if r.Intn(4) == 0 {
 		cs.Auth = 4
 	}
-	kinds := []string{"flip", "flip", "flip", "trunc", "insert", "split", "refrag", "dup", "drop", "close", "garbage", "stream", "stream", "shorten", "shorten", "lengthen"}
+	kinds := []string{"flip", "flip", "flip", "trunc", "insert", "split", "refrag", "dup", "drop", "close", "garbage", "stream", "stream", "shorten", "shorten", "lengthen", "zeros"}
 	cs.Kind = kinds[r.Intn(len(kinds))]
 	cs.Pos = r.Intn(6)
 	cs.Mask = 1 + r.Intn(255)
